@@ -736,6 +736,17 @@ class Buffer:
         If we're not on the first line (of a multiline input) go a line up,
         otherwise go back in history. (If nothing is selected.)
         """
+        if count <= 0:
+            # A negative repetition argument moves in the other direction; zero
+            # doesn't move at all. (`Document.get_cursor_up_position` and
+            # friends only accept a count >= 1.)
+            if count < 0:
+                self.auto_down(
+                    count=-count,
+                    go_to_start_of_line_if_history_changes=go_to_start_of_line_if_history_changes,
+                )
+            return
+
         if self.complete_state:
             self.complete_previous(count=count)
         elif self.document.cursor_position_row > 0:
@@ -754,6 +765,15 @@ class Buffer:
         If we're not on the last line (of a multiline input) go a line down,
         otherwise go forward in history. (If nothing is selected.)
         """
+        if count <= 0:
+            # (See `auto_up`.)
+            if count < 0:
+                self.auto_up(
+                    count=-count,
+                    go_to_start_of_line_if_history_changes=go_to_start_of_line_if_history_changes,
+                )
+            return
+
         if self.complete_state:
             self.complete_next(count=count)
         elif self.document.cursor_position_row < self.document.line_count - 1:
